@@ -150,6 +150,10 @@ func init() {
 	extendProp("C16", "nil-in-list, now also for optional tokens: a token of a nonterminal with an empty alternative (possible_comma) is appended to a token list only under a nil test of that same symbol - the dumper skips nil entries of a list, so a list with a nil in it is dumped with fewer elements than the tree has (round 6 seed C16-18: the guard tested `$5` where `$6` is appended).",
 		[]report.Floor{{Rule: "nil-in-list", What: "appends", Min: 12}},
 		func(c *Ctx) { defer c.cleanup(); c.flows_("nil-in-list") })
+	const shl = "scanner-helpers: NewLexer keeps the caller's bytes as they are (data is the parameter, pe its length, the cursor starts at 0), so offsets recorded by the scanner are offsets into the caller's source and no leading byte is lost (round 6 seeds C02-18, C06-18: a leading UTF-8 byte order mark trimmed in NewLexer; printing loses three bytes and every error position is three bytes too small)."
+	for _, id := range []string{"C02", "C06"} {
+		extendProp(id, shl, []report.Floor{{Rule: "scanner-helpers", What: "facts", Min: 12}}, func(c *Ctx) { c.ssaScan("scanner-helpers") })
+	}
 	extendProp("C14", "presence-oracle: which slots of which node kinds a silently parsed tree may leave empty equals the reviewed table - a name node's kind is told by its tokens (a NameRelative has its `namespace` keyword, a NameFullyQualified its leading separator), and the resolver chooses the rule by kind (seed C14-13: `\\Vendor\\X` in a PHP 5 constant expression built as a NameRelative without the keyword, resolved against the current namespace).",
 		[]report.Floor{{Rule: "presence-oracle", What: "slots", Min: 1100}},
 		func(c *Ctx) { defer c.cleanup(); c.presenceOracle() })
